@@ -106,7 +106,17 @@ impl Full {
         for m in f.msgs_created.iter_mut().chain(f.msgs_processed.iter_mut()) {
             m.processed_at = 0;
         }
+        // the processed-at order itself is wall-clock dependent
+        f.msgs_processed.sort_by(|a, b| a.id.cmp(&b.id));
+        // with equal created_at the created-at order falls back to processed_at: normalise
+        f.msgs_created.sort_by(|a, b| (b.created_at, &b.id).cmp(&(a.created_at, &a.id)));
         f.last.processed_at = f.last.processed_at.map(|_| 0);
+        // which of several messages with the newest created_at is "last" depends on processed_at
+        if let Some(at) = f.last.at {
+            if f.msgs_created.iter().filter(|m| m.created_at == at).count() > 1 {
+                f.last.id = Some("<tie on created_at>".into());
+            }
+        }
         if f.self_update.starts_with("CompletedAt") {
             f.self_update = "CompletedAt".into();
         }
